@@ -499,9 +499,37 @@ def impl(case):
             return out
         if op == 9:
             return keyring_impl(case)
+        if op == 10:
+            return exchange_impl(case)
     except Exception as e:  # noqa
         return exc_code(e)
     return Err(998, "bad op")
+
+
+def exchange_impl(case):
+    """signed query -> server reads it -> make_response -> client reads the response (oracle only)"""
+    _, qwire, k, now, fudge = case
+    key = mk_key(k)
+    q = dns.message.from_wire(bytes(qwire))
+    q.use_tsig(key, fudge=fudge)
+    with clock(now):
+        qw = q.to_wire(want_shuffle=False)
+    with clock(now):
+        sq = dns.message.from_wire(qw, keyring=key)
+    r = dns.message.make_response(sq)
+    with clock(now + 1):
+        rw = r.to_wire(want_shuffle=False)
+    with clock(now + 1):
+        cr = dns.message.from_wire(rw, keyring=key, request_mac=q.mac)
+    unbound = 0
+    for bad in (b"", bytes(len(q.mac)), q.mac[:-1]):
+        try:
+            with clock(now + 1):
+                dns.message.from_wire(rw, keyring=key, request_mac=bad)
+            unbound = 1
+        except dns.tsig.BadSignature:
+            pass
+    return [qw, rw, bytes(q.mac), int(bool(sq.had_tsig)), int(bool(cr.had_tsig)), unbound]
 
 
 def keyring_impl(case):
@@ -1210,9 +1238,22 @@ def gen_keyring_case(rng):
     return [9, k[0], k[1], k[2], rng.randrange(2), lib_wire(rng), gen_time(rng)]
 
 
+def gen_exchange_case(rng):
+    for _ in range(50):
+        w = lib_wire(rng)
+        fl = struct.unpack("!H", w[2:4])[0]
+        if not (fl & 0x8000) and ((fl >> 11) & 15) == 0 and struct.unpack("!H", w[4:6])[0] >= 1:
+            break
+    else:
+        w = dns.message.make_query("www.example.", "A", id=rng.randrange(65536)).to_wire()
+    return [10, w, gen_key(rng, 0), rng.choice([1700000000, 2 ** 32 - 1, 2 ** 40]), rng.choice([0, 1, 300])]
+
+
 def cases(ctx):
     rng = ctx.rng
     yield "tables", [0]
+    for _ in range(ctx.n(25, 300)):
+        yield "exchange", gen_exchange_case(rng)
     for _ in range(ctx.n(30, 300)):
         yield "keyring", gen_keyring_case(rng)
     for _ in range(ctx.n(110, 2500)):
@@ -1233,7 +1274,7 @@ def cases(ctx):
 
 def in_model(kind, case):
     op = case[0]
-    if op == 9:
+    if op in (9, 10):
         return False
     if op == 5:
         # the model writes the TSIG owner uncompressed; the key names of this generator never share a suffix with message names
@@ -1401,6 +1442,20 @@ def oracle(ctx, kind, case, out):
                     running += w
             else:
                 break
+    elif op == 10:
+        _, qwire, k, now, fudge = case
+        if isinstance(out, Err):
+            fail("signed query / response exchange failed: " + out.text, sig="exchange")
+            return F
+        qw, rw, qmac, shad, chad, unbound = out
+        vq = rfc_verdict(qw, k[0], k[1], k[2], b"", now)
+        vr = rfc_verdict(rw, k[0], k[1], k[2], qmac, now + 1)
+        if vq[0] != "accept" or vq[1] != qmac or not shad:
+            fail("signed query is not valid per RFC 8945: " + str(vq[:2]), sig="exchange-query")
+        if vr[0] != "accept" or not chad:
+            fail("response of make_response is not bound to the request MAC per RFC 8945 4.3.1: " + str(vr[:2]), sig="exchange-response")
+        if unbound:
+            fail("response validated with a different request MAC", sig="exchange-unbound")
     elif op == 9:
         _, nm, secret, alg, form, wire, now = case
         if isinstance(out, Err):
